@@ -385,6 +385,13 @@ func (l *longRPC) run(cc *goat.ClientConn) {
 			}
 		}
 	}
+	if l.outcome == "cancelnow" {
+		// opened and given up at once: the opener and the reset reach the server back to back (the driver holds the
+		// client's writes until both are written)
+		l.cancel()
+		drain()
+		return
+	}
 	if l.outcome == "srvabort" {
 		// two messages back to back (the second one marshals to zero bytes), then the caller only looks at the
 		// result: no CloseSend (the usual `if err := stream.Send(m); err != nil { return err }` loop)
@@ -445,7 +452,7 @@ func TestC14Long(t *testing.T) {
 	em.Marker("begin", idx)
 	r := newRand(1401)
 	kinds := []string{"Unary", "Bidi", "CStream", "SStream"}
-	outcomes := []string{"ok", "status", "cancel", "deadline", "reset", "failopen", "sendfail", "srvabort"}
+	outcomes := []string{"ok", "status", "cancel", "deadline", "reset", "failopen", "sendfail", "srvabort", "cancelnow"}
 	var samples []string
 	hist := map[string]int{}
 	maxInflight, idleSamples, maxSrv := 0, 0, 0
@@ -454,6 +461,10 @@ func TestC14Long(t *testing.T) {
 		l.Auto = true
 		g := &longRig{rpcs: map[int]*longRPC{}, ids: map[int]uint64{}}
 		fwd := l.C.OnWrite
+		// the client->server direction can be held for a moment (the server gets what the client wrote back to back)
+		var holdCMu sync.Mutex
+		holdingC := false
+		var heldC2S []*Rpc
 		l.C.OnWrite = func(rp *Rpc) {
 			for _, kv := range rp.GetHeader().GetHeaders() {
 				if kv.Key == "n" {
@@ -463,7 +474,28 @@ func TestC14Long(t *testing.T) {
 					g.mu.Unlock()
 				}
 			}
+			holdCMu.Lock()
+			if holdingC {
+				heldC2S = append(heldC2S, rp)
+				holdCMu.Unlock()
+				return
+			}
+			holdCMu.Unlock()
 			fwd(rp)
+		}
+		holdC2S := func(on bool) {
+			holdCMu.Lock()
+			holdingC = on
+			h := heldC2S
+			if !on {
+				heldC2S = nil
+			}
+			holdCMu.Unlock()
+			if !on {
+				for _, rp := range h {
+					fwd(rp)
+				}
+			}
 		}
 		// the server->client direction can be held for a moment (the client has not yet seen what the server wrote)
 		var holdMu sync.Mutex
@@ -558,6 +590,9 @@ func TestC14Long(t *testing.T) {
 				if a.outcome == "srvabort" && (a.kind == "Unary" || a.kind == "SStream") {
 					a.outcome = "status"
 				}
+				if a.outcome == "cancelnow" && a.kind == "Unary" {
+					a.outcome = "cancel"
+				}
 				started++
 				g.mu.Lock()
 				g.rpcs[a.n] = a
@@ -570,6 +605,13 @@ func TestC14Long(t *testing.T) {
 					a.stage <- struct{}{}
 					synctest.Wait()
 					l.C.FailWrites(nil)
+				} else if a.outcome == "cancelnow" {
+					// NewStream, then cancel at once: the server's read loop finds the opener and the reset waiting together
+					// (the stream's context may be over before its handler goroutine has run a single instruction)
+					holdC2S(true)
+					a.stage <- struct{}{}
+					synctest.Wait()
+					holdC2S(false)
 				} else if a.outcome == "srvabort" {
 					// the handler gives up after the first message; the client, which has not yet seen the server's
 					// trailer, sends one more message (zero bytes on the wire) and then only looks at the result
